@@ -96,3 +96,4 @@ class Struct:
     twin: bool = False          # emit Debug twin
     ctab: bool = False          # emit compile-time tables (C15)
     keep_names: bool = False    # keep the field names given by the enumerator (NAMES family)
+    derives: str = ''           # user derives passed through the macro, e.g. '#[derive(PartialEq, Eq)]'
